@@ -215,3 +215,63 @@ void h_sort(void)
   VC_CHECK("reverse sort: output is a permutation of the input rows", seen_r == (((size_t)1 << VC_M) - 1));
   VC_REACH();
 }
+
+#include "tensor.h"
+/* tensor contractions (ring mode): two blocks of VC_M x VC_N */
+static tensor *in_tensor(size_t order, size_t r, size_t c)
+{
+  tensor *t;
+  NewTensor(&t, order);
+  for(size_t k = 0; k < order; k++) {
+    NewTensorMatrix(t, k, r, c);
+    for(size_t i = 0; i < r; i++)
+      for(size_t j = 0; j < c; j++)
+        t->m[k]->data[i][j] = IN_CELL();
+  }
+  return t;
+}
+
+void h_tensor_contractions(void)
+{
+  tensor *t = in_tensor(2, VC_M, VC_N);
+  /* P(k,i) += sum_j T(k,i,j) v(j) */
+  dvector *v = in_dvector(VC_N);
+  matrix *p = in_matrix(2, VC_M);
+  double p0[2][GMAX];
+  for(size_t k = 0; k < 2; k++) for(size_t i = 0; i < VC_M; i++) p0[k][i] = p->data[k][i];
+  TransposedTensorDVectorProduct(t, v, p);
+  for(size_t k = 0; k < 2; k++)
+    for(size_t i = 0; i < VC_M; i++) {
+      if(!GHOST(k, i)) continue;
+      double s = p0[k][i];
+      for(size_t j = 0; j < VC_N; j++) s += t->m[k]->data[i][j] * v->data[j];
+      VC_CHECK("TransposedTensorDVectorProduct: P(k,i) = previous + sum_j T(k,i,j) v(j)", p->data[k][i] == s);
+    }
+  /* M(j,k) += sum_i w(i) T(k,i,j) */
+  dvector *w = in_dvector(VC_M);
+  matrix *m = in_matrix(VC_N, 2);
+  double m0[GMAX][2];
+  for(size_t j = 0; j < VC_N; j++) for(size_t k = 0; k < 2; k++) m0[j][k] = m->data[j][k];
+  DvectorTensorDotProduct(t, w, m);
+  for(size_t j = 0; j < VC_N; j++)
+    for(size_t k = 0; k < 2; k++) {
+      if(!GHOST(k, j)) continue;
+      double s = m0[j][k];
+      for(size_t i = 0; i < VC_M; i++) s += w->data[i] * t->m[k]->data[i][j];
+      VC_CHECK("DvectorTensorDotProduct: M(j,k) = previous + sum_i w(i) T(k,i,j)", m->data[j][k] == s);
+    }
+  /* u(i) += sum_k sum_j T(k,i,j) Q(j,k) */
+  matrix *q = in_matrix(VC_N, 2);
+  dvector *u = in_dvector(VC_M);
+  double u0[GMAX];
+  for(size_t i = 0; i < VC_M; i++) u0[i] = u->data[i];
+  TensorMatrixDotProduct(t, q, u);
+  for(size_t i = 0; i < VC_M; i++) {
+    if(!GHOST(-1L, i) && VC_GJ >= 0 && (long)i != VC_GJ) continue;
+    double s = u0[i];
+    for(size_t k = 0; k < 2; k++)
+      for(size_t j = 0; j < VC_N; j++) s += t->m[k]->data[i][j] * q->data[j][k];
+    VC_CHECK("TensorMatrixDotProduct: u(i) = previous + sum_k sum_j T(k,i,j) Q(j,k)", u->data[i] == s);
+  }
+  VC_REACH();
+}
